@@ -21,7 +21,7 @@ from common import Raw, tla_value
 
 FL = [[], [{"to": True, "ptr": False}], [{"to": False, "ptr": True}], [{"to": True, "ptr": True}, {"to": False, "ptr": False}],
       [{"to": True, "ptr": False}, {"to": True, "ptr": True}]]
-BEHS = {"ok", "zero", "two", "partial", "unsup", "unsupafter", "error", "reset"}
+BEHS = {"ok", "zero", "two", "partial", "unsup", "unsupafter", "error", "reset", "nestreset"}
 
 
 def run(ctx):
